@@ -45,6 +45,7 @@ theorem resolveItems_valid : ∀ (s : Shape) (ix : List Ix) (rix : List RIx),
   | [], .int i :: r, rix, h => by simp [resolveItems] at h
   | [], .slice a b c :: r, rix, h => by simp [resolveItems] at h
   | [], .list l :: r, rix, h => by simp [resolveItems] at h
+  | [], .mask b :: r, rix, h => by simp [resolveItems] at h
   | n :: s, [], rix, h => by simp [resolveItems] at h
   | n :: s, .int i :: r, rix, h => by
     simp only [resolveItems] at h
@@ -90,6 +91,28 @@ theorem resolveItems_valid : ∀ (s : Shape) (ix : List Ix) (rix : List RIx),
         simp only [hr, Except.map] at h
         injection h with h; subst h
         simp [validIx, mapM_normInt n l js hl, resolveItems_valid s r rr hr]
+  | n :: s, .mask bits :: r, rix, h => by
+    simp only [resolveItems] at h
+    by_cases hl : bits.length ≠ n
+    · rw [if_pos hl] at h; cases h
+    · rw [if_neg hl] at h
+      by_cases he : truePositions bits = []
+      · rw [if_pos he] at h; cases h
+      · rw [if_neg he] at h
+        cases hr : resolveItems s r with
+        | error e => simp [hr, Except.map] at h
+        | ok rr =>
+          simp only [hr, Except.map] at h
+          injection h with h; subst h
+          have hlen : bits.length = n := by simpa using hl
+          have hpos : (truePositions bits).all (fun i => decide (i < n)) = true := by
+            rw [List.all_eq_true]
+            intro i hi
+            unfold truePositions at hi
+            have := (List.mem_filter.mp hi).1
+            rw [List.mem_range, hlen] at this
+            simpa using this
+          simp [validIx, hpos, resolveItems_valid s r rr hr]
 
 end NT
 end TdVerif.C16
